@@ -25,6 +25,7 @@ NOT_DECIDED = 'equality up to printed precision, float formatting/parsing, third
 TECHNIQUE = 'writer/reader key-set and record-table agreement, abstract interpretation of layouts through the file, weight-form typestate'
 DECIDES += (" [ABSTRACT INTERPRETATION, exact] CV3: the weight / flip converters and their 2-D file variants on monomial cells (a file variant saves the result of its own converter with that array's row / column counts).")
 DECIDES += (' TRM2: a trim of every kind an importer can build (spline, rational, freeform, container) is accepted by the setter the importers use; IV1: setting control points clears the cached rational views, so an imported rational shape reports the weights of the file.')
+DECIDES += (' JR2: a rational curve, a trimmed non-square surface (spline, freeform and container trims) and a volume, built by interpreting the classes\' own constructors and setters on exact data, come back from export_dict_* followed by import_dict_* with the same degrees, sizes, knot vectors, homogeneous control points (exact), public weights / ctrlpts views, trims and delta.')
 
 PAIRS = [('export_dict_crv', 'import_dict_crv'), ('export_dict_surf', 'import_dict_surf'), ('export_dict_vol', 'import_dict_vol'),
          ('export_dict_ff', 'import_dict_ff'), ('export_dict_multi_crv', 'import_dict_multi_crv')]
@@ -55,6 +56,7 @@ def check(m, run):
     _rs.iv1(m, run, [('NURBS', 'Curve'), ('NURBS', 'Surface'), ('NURBS', 'Volume')], caches_filter=lambda c: c in ("_cache['ctrlpts']", "_cache['weights']"))
     from .. import skel_drivers as _sdt
     _sdt.trm2(m, run)      # every kind of trim a file can carry is accepted by the setter the importers use
+    _sdt.jr2(m, run)       # dictionary (JSON / cfg / yaml) round trip of a rational curve, trimmed surface and volume through the real classes
 
 
 def aggregate_after_loop(m, run):
